@@ -10,7 +10,7 @@
     `has` / `.` on RECORD and ENTITY types (entity LUBs: `lookupEntityAttr` / `hasResultTypeEntity`) with
     required/optional attributes and capabilities keyed by structural access paths, `is` (True/False folding from the
     static entity LUB), `in` (right operand entity or set of entities; static False from the entity-type hierarchy walks
-    `isEntityDescendant` / `anyEntityDescendantOf`; True/False folding of `action in …` from the schema's action
+    `isEntityDescendant` / `anyEntityDescendantOf` — an action type may be below any action type —; True/False folding of `action in …` from the schema's action
     hierarchy: `exprToActionEUID(s)`, `isActionInSet`), `is … in` (no folding in the Go code), `hasTag` / `getTag` (tag
     capabilities, `entityHasTags`, `entityTagType`), set and record literals (LUB of element types, strict empty-set
     rule), `contains/containsAll/containsAny/isEmpty`, `like`, every extension function of `extFuncTypes`
@@ -28,12 +28,13 @@
   `dom = false` is the Go algorithm.  `dom = true` additionally rejects what lies outside the domain
   of `C15_typeOf_sound_partial` (each is either a confirmed defect of the Go code or a part of the
   proof not done): the permissive record LUB that drops an attribute, non-literal constructor arguments, the
-  same-variable rule for `context == context`, `hasTag` / `getTag` on an entity LUB of which some but not all elements
-  declare tags (`mixedTags`).
+  same-variable rule for `context == context`.
   (Comparisons of two DIFFERENT comparable types, unknown functions and attribute names containing `'.'` in
   `has`/`.` used to be on this list; since the repairs of `comparison-mixed-comparable-types` and
   `unknown-function-zero-args` the Go algorithm rejects the first two itself, and since the repair of
-  `capability-path-collision` capability keys are access paths compared structurally, so dotted names are harmless.)
+  `capability-path-collision` capability keys are access paths compared structurally, so dotted names are harmless.
+  `hasTag` / `getTag` on an entity LUB of which some but not all elements declare tags was on it too: since the repair
+  of `hastag-lub-mixed-tags` such a `hasTag` is Bool, not False, and `getTag` has the LUB of the declared tag types.)
 -/
 import CedarGo.Model.Validate.Types
 import CedarGo.Model.Policy
@@ -213,11 +214,10 @@ def inResult (Γ : TEnv) (l r : Expr) (lt rt : Ty) : Except TErr Ty :=
         | some false => .ok .ff
   | _ => .error .reject
 
-/-- `typeOfHasTag` once both sides type-checked (no error recorded) -/
-def hasTagResult (dom : Bool) (Γ : TEnv) (l r : Expr) (lt rt : Ty) (caps : Caps) : TRes :=
+/-- `typeOfHasTag` once both sides type-checked (no error recorded): False when NO element of the LUB declares tags -/
+def hasTagResult (Γ : TEnv) (l r : Expr) (lt rt : Ty) (caps : Caps) : TRes :=
   match lt, rt with
   | .entity tys, .string =>
-    if dom && mixedTags Γ tys then .error .reject else
     if !entityHasTags Γ tys then .ok (.ff, caps) else
     let p := exprCapPath l
     let k := tagCapabilityKey r
@@ -229,7 +229,6 @@ def hasTagResult (dom : Bool) (Γ : TEnv) (l r : Expr) (lt rt : Ty) (caps : Caps
 def getTagResult (dom : Bool) (Γ : TEnv) (l r : Expr) (lt rt : Ty) (caps : Caps) : Except TErr Ty :=
   match lt, rt with
   | .entity tys, .string =>
-    if dom && mixedTags Γ tys then .error .reject else
     match entityTagType dom Γ.strict Γ .never tys with
     | none => .error .reject
     | some tagTy =>
@@ -400,7 +399,7 @@ def typeOf (dom : Bool) (Γ : TEnv) : Expr → Caps → TRes
     | .ok (lt, _) =>
       match typeOf dom Γ r caps with
       | .error e => .error e
-      | .ok (rt, _) => hasTagResult dom Γ l r lt rt caps
+      | .ok (rt, _) => hasTagResult Γ l r lt rt caps
   -- typeOfIs
   | .is e ty, caps =>
     match typeOf dom Γ e caps with
